@@ -204,6 +204,16 @@ func emptyTest(fact, x string) bool {
 // `if c { ...; return | continue | break | goto | panic(..) | exit(..) }` without else, at the same nesting level as
 // a statement containing pos. Outermost first, in source order.
 func factsAt(root ast.Node, pos token.Pos) []string {
+	return factsAtLeaf(root, pos, func(l ast.Expr) string { return nospace(l) })
+}
+
+// exitingCalls: functions of the analysed program that never return (they end in exit): a block that ends in a call
+// of one of them is an early exit. Rules register the ones they have established (C13: the usage/exit wrappers).
+var exitingCalls = map[string]bool{"panic": true, "exit": true, "os.Exit": true, "log.Fatal": true, "log.Fatalf": true, "argError": true}
+
+// factsAtLeaf is factsAt with a caller-supplied rendering of the leaves of conditions.
+func factsAtLeaf(root ast.Node, pos token.Pos, leaf func(ast.Expr) string) []string {
+	canonCond := func(e ast.Expr, neg bool) string { return canonCondWith(e, neg, leaf) }
 	var out []string
 	var visitBlock func(list []ast.Stmt)
 	terminates := func(b *ast.BlockStmt) bool {
@@ -215,8 +225,7 @@ func factsAt(root ast.Node, pos token.Pos) []string {
 			return true
 		case *ast.ExprStmt:
 			if ce, ok := x.X.(*ast.CallExpr); ok {
-				switch callName(ce) {
-				case "panic", "exit", "os.Exit", "log.Fatal", "log.Fatalf", "argError":
+				if exitingCalls[callName(ce)] {
 					return true
 				}
 			}
@@ -242,6 +251,24 @@ func factsAt(root ast.Node, pos token.Pos) []string {
 		case *ast.RangeStmt:
 			visitBlock(x.Body.List)
 		case *ast.SwitchStmt:
+			if x.Tag == nil {
+				// a condition switch: in a clause its own condition holds and those of the clauses before it do not
+				for _, cl := range x.Body.List {
+					cc := cl.(*ast.CaseClause)
+					inClause := cc.Pos() <= pos && pos < cc.End()
+					if inClause {
+						if len(cc.List) == 1 {
+							out = append(out, canonCond(cc.List[0], false))
+						}
+						visitBlock(cc.Body)
+						return
+					}
+					if len(cc.List) == 1 {
+						out = append(out, canonCond(cc.List[0], true))
+					}
+				}
+				return
+			}
 			visitBlock(x.Body.List)
 		case *ast.TypeSwitchStmt:
 			visitBlock(x.Body.List)
